@@ -36,6 +36,17 @@ func (n *Node) bootPeersyncComp(ctx context.Context) {
 	n.PS = ps
 	n.Up, n.Recovered = true, true
 	w.Observe(&Obs{Node: n.ID, Inc: n.inc, Kind: "boot.done"})
+	// peer-sync's own Lightning adapters, where the plan asks for them: the real clightning
+	// client over the simulated lightningd, or the simulated lnd's RPC client
+	switch w.Plan.Scn.Adapter[n.ID] {
+	case "cln":
+		if _, err := n.bootCln(ctx); err != nil {
+			w.Infraf("cln: %v", err)
+			return
+		}
+	case "lnd":
+		n.lnd = newFakeLnd(n)
+	}
 	n.startPeersync(ctx, pol, ps)
 }
 
@@ -45,6 +56,9 @@ func (n *Node) bootPeersyncComp(ctx context.Context) {
 type refPeer struct {
 	version  uint64
 	rate     int64
+	setAt    time.Duration // delivery time of the poll the reference took version / rate from
+	alt      *refPoll      // capability held when the peer was legitimately removed (expired while disconnected): the statement does not say whether a later lower-version poll meets an unknown peer or the old capability, so both outcomes are accepted until a poll of at least that version arrives
+	hist     []refPoll     // every decodable poll delivered from this peer
 	has      bool
 	lastObs  time.Duration
 	lastSeen time.Duration // last time the reference was updated
@@ -64,9 +78,21 @@ type c28pending struct {
 	peer int
 }
 
+type refPoll struct {
+	at      time.Duration
+	version uint64
+	rate    int64
+}
+
 func (m *monC28) Name() string { return "C28" }
 
 func (m *monC28) OnObs(w *World, o *Obs) {
+	// settle pending comparisons a little after the delivery - before this observation changes
+	// the reference (a poll that is being delivered right now has not been handled yet)
+	if len(m.pending) > 0 && o.T-m.pending[0].at > 2*time.Second {
+		m.pending = nil
+		m.compareAll(w, "after-poll")
+	}
 	switch o.Kind {
 	case "peersync.started":
 		m.startedAt = o.T
@@ -97,12 +123,28 @@ func (m *monC28) OnObs(w *World, o *Obs) {
 			r = &refPeer{}
 			m.ref[from] = r
 		}
+		if r.has {
+			// the record may have been removed since the last comparison (legitimately: expired
+			// while disconnected); what this poll meets is then an unknown peer, and a lower
+			// version is stored like any first poll
+			// (only this legitimate case is settled here: a record that is merely not written
+			// yet - polls a few milliseconds apart - is left to the comparisons after the poll)
+			if pv := n.PeerView(from); (pv == nil || pv.Capability() == nil) && !m.connectedThroughout(w, from, r.lastObs) && o.T-r.lastObs >= 30*time.Minute {
+				r.alt = &refPoll{version: r.version, rate: r.rate}
+				r.has = false
+				w.Probe("C28:expired-disconnected-peer-removed")
+			}
+		}
 		if r.has && dto.Version < r.version {
 			// a poll advertising a lower protocol version does not replace the stored capability
 			w.Probe("C28:lower-version-poll")
 		} else {
-			r.version, r.rate, r.has = dto.Version, dto.BO, true
+			if r.alt != nil && dto.Version >= r.alt.version {
+				r.alt = nil
+			}
+			r.version, r.rate, r.has, r.setAt = dto.Version, dto.BO, true, o.T
 		}
+		r.hist = append(r.hist, refPoll{o.T, dto.Version, dto.BO})
 		r.lastObs = o.T
 		w.Probe("C28:poll-delivered")
 		m.pending = append(m.pending, c28pending{at: o.T, peer: from})
@@ -130,11 +172,6 @@ func (m *monC28) OnObs(w *World, o *Obs) {
 	case "op.ext":
 		// connect / disconnect
 	}
-	// settle pending comparisons a little after the delivery
-	if len(m.pending) > 0 && o.T-m.pending[0].at > 2*time.Second {
-		m.pending = nil
-		m.compareAll(w, "after-poll")
-	}
 }
 
 func (m *monC28) reconnectedSince(w *World, peer int, since time.Duration) bool {
@@ -156,6 +193,20 @@ func (m *monC28) connectedThroughout(w *World, peer int, from time.Duration) boo
 	return w.connectedTo(0, peer)
 }
 
+// judgeRemoval: the node no longer stores a peer the reference knows. Removal is legitimate
+// only for an expired peer that is disconnected.
+func (m *monC28) judgeRemoval(w *World, peer int, r *refPeer, when string) {
+	if m.connectedThroughout(w, peer, r.lastObs) {
+		w.Violate("C28", "connected-peer-removed:"+when, "node 0 no longer stores peer %d (last poll at %v, now %v) although the peer was connected all the time", peer, r.lastObs, w.Sim.Now())
+	} else if w.Sim.Now()-r.lastObs < 30*time.Minute {
+		w.Violate("C28", "peer-removed-before-expiry:"+when, "node 0 no longer stores peer %d although its last poll was only %v ago", peer, w.Sim.Now()-r.lastObs)
+	} else {
+		r.alt = &refPoll{version: r.version, rate: r.rate}
+		r.has = false
+		w.Probe("C28:expired-disconnected-peer-removed")
+	}
+}
+
 func (m *monC28) compareAll(w *World, when string) {
 	n := w.Nodes[0]
 	if n.ext.psStore == nil {
@@ -168,20 +219,32 @@ func (m *monC28) compareAll(w *World, when string) {
 		pv := n.PeerView(peer)
 		w.Probe("C28:view-compared")
 		if pv == nil || pv.Capability() == nil {
-			// removal is legitimate only for an expired peer that is disconnected
-			if m.connectedThroughout(w, peer, r.lastObs) {
-				w.Violate("C28", "connected-peer-removed:"+when, "node 0 no longer stores peer %d (last poll at %v, now %v) although the peer was connected all the time", peer, r.lastObs, w.Sim.Now())
-			} else if w.Sim.Now()-r.lastObs < 30*time.Minute {
-				w.Violate("C28", "peer-removed-before-expiry:"+when, "node 0 no longer stores peer %d although its last poll was only %v ago", peer, w.Sim.Now()-r.lastObs)
-			} else {
-				r.has = false
-				w.Probe("C28:expired-disconnected-peer-removed")
-			}
+			m.judgeRemoval(w, peer, r, when)
 			continue
 		}
 		gotV := pv.Capability().Version().Value()
 		gotR := storedBtcOut(pv)
+		if r.alt != nil && gotV == r.alt.version && gotR == r.alt.rate {
+			w.Probe("C28:lower-version-poll-after-expiry-kept-old-capability")
+			continue
+		}
 		if gotV != r.version || gotR != r.rate {
+			// On CLN every custommsg hook call is handled in a goroutine of its own (glightning's
+			// server: `go processMsg`), so two polls of one peer that are in flight together can be
+			// applied in either order. That is a defect of its own (see known findings) and gets
+			// its own signature; everything else - also on CLN - is the plain one.
+			if w.Plan.Scn.Adapter[0] == "cln" {
+				for _, h := range r.hist {
+					d := h.at - r.setAt
+					if d < 0 {
+						d = -d
+					}
+					if h.version == gotV && h.rate == gotR && d <= 50*time.Millisecond {
+						when = "polls-in-flight-together:cln:" + when
+						break
+					}
+				}
+			}
 			w.Violate("C28", "stored-capability-differs:"+when, "node 0 stores version %d / marker rate %d for peer %d, its polls say version %d / rate %d (%s)", gotV, gotR, peer, r.version, r.rate, when)
 		}
 		compat := n.ext.PSync.HasCompatiblePeer(w.Nodes[peer].Pubkey)
